@@ -148,7 +148,7 @@ Section PInv.
     - intro H. injection H as <- <-. split; [exact I|]. intros _. split; [reflexivity|].
       subst ret. destruct (get_node g sid) as [nd|]; [|discriminate R].
       exists nd. split; [reflexivity|]. intros c ->. exact R.
-    - destruct (cf_ge20 (g_cf g)).
+    - destruct (node_id_ok sid && cf_ge20 (g_cf g)).
       + destruct (sassoc _ _) as [ip|]; [|discriminate].
         pose proof (P_route g (mkMsg sid system_child_id (vt_internal (tab g)) 0 ip []) I) as I1.
         destruct (route g _) as [g1' r]. simpl in I1. intro H. injection H as <- <-.
@@ -374,7 +374,7 @@ Section PInv.
 
   Lemma tab_is_sensor g sid cid g1 b : is_sensor g sid cid = Ok (g1, b) -> tab g1 = tab g.
   Proof.
-    unfold is_sensor. destruct (negb _ && cf_ge20 (g_cf g)); [|intro H; inversion H; reflexivity].
+    unfold is_sensor. destruct (negb _ && node_id_ok sid && cf_ge20 (g_cf g)); [|intro H; inversion H; reflexivity].
     destruct (sassoc _ _) as [ip|]; [|discriminate].
     destruct (route g _) as [g1' r] eqn:RT. intro H. inversion H; subst.
     assert (C : g_cf g1' = g_cf g).
